@@ -335,14 +335,23 @@ class Switch(Generic[R], GenerativeFunction[R]):
             # other branches only hold placeholders of the right shape).
             bwd_request = Update(
                 ChoiceMap.switch(
-                    new_idx, list(t[3].constraint for t in rets)
+                    # (as an array, so that the result has the same pytree
+                    # structure for a Python int as for a traced index: this
+                    # method may itself run as a branch of an enclosing switch)
+                    jnp.asarray(new_idx),
+                    list(t[3].constraint for t in rets),
                 )
             )
         else:
             # The branch was replaced by a freshly simulated one: going back (with
             # the old index) re-creates the old branch, constrained to the
             # choices it had.
-            bwd_request = Update(trace.get_choices())
+            bwd_request = Update(
+                ChoiceMap.switch(
+                    jnp.asarray(trace.get_idx()),
+                    list(tr.get_choices() for tr in trace.subtraces),
+                )
+            )
 
         return (
             SwitchTrace(self, primals, subtraces, retval, score),
